@@ -361,3 +361,61 @@ def horospheres_all_dimensions(tier, rng, rep):
                         rep.fail("horosphere_tangent_at_centre", "half-space: centre not above the ideal centre at height r", inp); return
             rep.attempt("horosphere_runs", inp, body)
             rep.case(key=(t, model), nontrivial=n >= 3, sample=inp if t == 0 else None)
+
+
+@bounded(P, "composite_arrays_of_segments", functions=[H + "Subspace.sphere_parameters", H + "Segment.circle_parameters", H + "Geodesic.circle_parameters", "geometry_tools/utils/core.py:sphere_inversion",
+                                                        "geometry_tools/utils/core.py:sphere_through"],
+         note="segments and geodesics stored as composite arrays with one, two and three array axes (square, cubic and rectangular): entry [i, j, ...] of every reported parameter is the "
+              "parameter of segment [i, j, ...], and passes through that segment's endpoints (closed-form chart maps)")
+def composite_arrays_of_segments(tier, rng, rep):
+    N = 10 if tier == 'thorough' else 2
+    shapes = [(3,), (3, 3), (2, 2, 2), (2, 3), (1, 4), (4, 1)]
+    rep.rule = "Segment and Geodesic arrays of shapes (3,), (3,3), (2,2,2), (2,3), (1,4), (4,1); n = 2, 3, 4; Poincare and half-space; sphere_parameters, and circle_parameters for n = 2 (radians and degrees)"
+    rep.bound = f"{N} rounds x 6 shapes x 3 dimensions x 2 classes x 2 models"
+    for t in range(N):
+        for shape in shapes:
+            for n in (2, 3, 4):
+                d = rng.normal(size=shape + (2, n))
+                k = d / np.linalg.norm(d, axis=-1, keepdims=True) * rng.uniform(0.1, 0.9, size=shape + (2, 1))
+                for cls in ("Segment", "Geodesic"):
+                    kk = k / np.linalg.norm(k, axis=-1, keepdims=True) if cls == "Geodesic" else k
+                    for model in ("poincare", "halfspace"):
+                        inp = {"class": cls, "shape": list(shape), "n": n, "model": model, "klein_endpoints": kk.tolist()}
+
+                        def body():
+                            mk = h.Segment if cls == "Segment" else h.Geodesic
+                            S = mk(h.Point(spec.k2proj(kk)))
+                            if S.shape != shape:
+                                rep.fail("composite_shape", f"{S.shape}", inp); return
+                            with np.errstate(all='ignore'):
+                                c, r = S.sphere_parameters(model=model)
+                                c, r = np.asarray(c, dtype=float), np.asarray(r, dtype=float)
+                                if c.shape != shape + (n,) or r.shape != shape:
+                                    rep.fail("parameter_shapes", f"centres {c.shape}, radii {r.shape} for {shape} segments in dimension {n}", inp); return
+                                conv = (lambda q: spec.k2p(q)) if model == "poincare" else (lambda q: spec.p2h(spec.k2p(q)))
+                                e = conv(kk)
+                                for idx in np.ndindex(*shape):
+                                    if not (np.all(np.isfinite(c[idx])) and np.isfinite(r[idx]) and r[idx] < 1e4 and np.all(np.isfinite(e[idx])) and np.max(np.abs(e[idx])) < 1e4):
+                                        continue            # a (near-)diameter, or an endpoint at infinity of the half-space
+                                    sc = 1 + r[idx] + np.max(np.abs(e[idx]))
+                                    for j in (0, 1):
+                                        if not abs(np.linalg.norm(e[idx][j] - c[idx]) - r[idx]) <= 1e-6 * sc * sc:
+                                            rep.fail("sphere_through_endpoints", f"segment {idx}, endpoint {j}: |p - c| = {np.linalg.norm(e[idx][j] - c[idx])} but r = {r[idx]}", {**inp, "index": list(idx)}); return
+                                    cu, ru = S[idx].sphere_parameters(model=model)
+                                    if not (np.all(np.abs(np.asarray(cu, dtype=float).reshape(n) - c[idx]) <= 1e-7 * sc) and abs(float(np.asarray(ru).reshape(())) - r[idx]) <= 1e-7 * sc):
+                                        rep.fail("entry_is_the_parameter_of_that_segment", f"segment {idx}", {**inp, "index": list(idx)}); return
+                                if n == 2:
+                                    for deg in (False, True):
+                                        cc, rr, th = S.circle_parameters(model=model, degrees=deg)
+                                        th = np.asarray(th, dtype=float)
+                                        if th.shape != shape + (2,):
+                                            rep.fail("parameter_shapes", f"angles {th.shape}", inp); return
+                                        for idx in np.ndindex(*shape):
+                                            cu, ru, tu = S[idx].circle_parameters(model=model, degrees=deg)
+                                            tu = np.asarray(tu, dtype=float).reshape(2)
+                                            if np.all(np.isfinite(tu)) and np.isfinite(r[idx]) and r[idx] < 1e4 and not np.all(np.abs(tu - th[idx]) <= 1e-6 * (57.3 if deg else 1)):
+                                                rep.fail("entry_is_the_parameter_of_that_segment", f"angles of segment {idx}: {th[idx]} vs {tu}", {**inp, "index": list(idx), "degrees": deg}); return
+                        rep.attempt("sphere_runs", inp, body)
+                        rep.case(key=(t, shape, n, cls, model), nontrivial=len(shape) >= 2, sample=inp if (t, shape, n, cls, model) == (0, (3, 3), 2, "Segment", "poincare") else None)
+                        if len(rep.failures) >= 3:
+                            return
